@@ -84,6 +84,10 @@ print(decorated, coroutine, Klass, a1, b1, c1, d1, i, j, k, fh, l1, l2, x2, x3, 
     result = [cell for row in data for cell in row if cell]
     return outer, Local, value, done, result, only, extra, sep, index, missing
 ''',
+    # captures of a match statement
+    'def f(v, w):\n    match v:\n        case [x, *rest] if x:\n            return x, rest\n        case {"k": q, ** more}:\n            return q, more\n'
+    '        case {**\\\n  only}:\n            return only\n        case int(real=r) as whole:\n            return r, whole\n        case (1 | 2) as num, [*_, last]:\n'
+    '            return num, last\n        case other:\n            return other\n    match w:\n        case str() as unused_capture:\n            pass\n',
 ]
 
 
